@@ -95,6 +95,13 @@ func cmdCheck(args []string) int {
 	t0 := time.Now()
 	thorough := *tier == "thorough"
 	timeout := 10 * time.Second
+	if ms := os.Getenv("GOVC_TIMEOUT_MS"); ms != "" { // testing aid: provoke solver timeouts
+		var n int
+		if _, err := fmt.Sscanf(ms, "%d", &n); err == nil && n > 0 {
+			defer func(d time.Duration) { _ = d }(timeout)
+			timeout = time.Duration(n) * time.Millisecond
+		}
+	}
 	if thorough {
 		timeout = 60 * time.Second
 	}
